@@ -38,3 +38,41 @@ class X01(Check):
                                     "name": "", "type": t, "byteln": bl, "nileff": ne, "nodet": nd}])
                         k += 1
         return gs
+
+
+from . import emu as emuchk
+from ..gen_rv import T, encode, valid_in
+
+
+class X02(emuchk.EmuCheck):
+    """the emulator on the other machine configurations the lifter supports: RV32 I/M/A and RV64 without all extensions"""
+    pid = "X02"
+    level_note = "beyond the listed properties (C03 speaks about RV64IMA)"
+    rule = ("one two-instruction program per mnemonic valid in the configuration, for RV32 x {I, IM, IA, IMA} and RV64 x "
+            "{I, IM, IA}, preset and provider-supplied registers of the configuration's width, judged step by step by "
+            "TraceEmu / RV!Exec exactly like C03; non-trivial = both steps succeed")
+    assumptions = ["memory accesses do not wrap around the address space"]
+
+    def filter_bad(self, bad):
+        return [b for b in bad if b["why"] not in emuchk.C04_WHYS]
+
+    def groups(self, tier, seed):
+        rng = random.Random(seed * 40503 + 2)
+        out, k = [], 0
+        for xlen, exts in [(32, ""), (32, "M"), (32, "A"), (32, "MA"), (64, ""), (64, "M"), (64, "A")]:
+            nb = xlen // 8
+            bases = [[0, 16, 0, 0, 0, 0, 0, 0], [0, 0, 0, 128, 0, 0, 0, 0]] + ([[0, 0, 1, 0, 1, 0, 0, 0]] if xlen == 64 else [])
+            for t in T:
+                if not valid_in(t, xlen, exts):
+                    continue
+                for _ in range(2 if tier == "quick" else 8):
+                    w = encode(t, rng, xlen)
+                    regs0 = {}
+                    for r in (1, 2, 5, 10, 31):
+                        if rng.random() < 0.5:
+                            v = rng.choice([0, 1, (1 << xlen) - 1, 1 << (xlen - 1), rng.getrandbits(xlen), rng.getrandbits(12)])
+                            regs0["x%d" % r] = [(v >> (8 * i)) & 255 for i in range(nb)]
+                    out.append(self.program_group("x%d" % k, [w, 0x00000013], rng.choice(bases), regs0, rng.randrange(1 << 30), 2,
+                                                  variant=xlen, exts=exts))
+                    k += 1
+        return out
